@@ -254,6 +254,7 @@ func (r YangRange) Validate() error {
 		if n.Min.Less(p.Max) {
 			return errors.New("overlapping ranges")
 		}
+		p = n
 	}
 	return nil
 }
@@ -529,7 +530,8 @@ func coalesce(r YangRange) YangRange {
 		// r1 starts inside of cr[i]
 		// r1.Min cr[i].Max+1
 		// r1 is beyond cr[i]
-		if cr[i].Max.addQuantum(1).Less(r1.Min) {
+		// cr[i].Max+1 cannot overflow when cr[i].Max is less than r1.Min.
+		if cr[i].Max.Less(r1.Min) && cr[i].Max.addQuantum(1).Less(r1.Min) {
 			// r1 starts after cr[i], this is a new range
 			i++
 			cr[i] = r1
